@@ -214,6 +214,11 @@ def conc_scenario(rng, prog, gates=True):
     if r2.random() < 0.35:
         # batch limits around the size of one or two updates: updates are parked in the overflow queue and sent in later calls
         sc["batcher"] = {"bytes": r2.choice([120, 200, 260, 320, 400, 520]), "ops": r2.choice([1, 2, 3, 250, 250])}
+        if sc["api_latency"] == 0.0:
+            # time must pass somewhere: with batches that are full at once (no collection window) AND calls that take no time, a branch
+            # that polls the backend (an invoke parked on "now", a timer the backend fires late) turns in a loop of zero virtual
+            # duration, the clock never reaches the timers of its siblings and the step budget reports a hang no real clock allows
+            sc["api_latency"] = 0.05
     return sc
 
 
